@@ -985,5 +985,210 @@ def rule_l(repo, chk):
     chk.exhaustive_rules.append('C01.l every function of the package')
 
 
+TRIAGED_EMPTY = {
+    # (module, function, variable) -> why the sliced/filtered list cannot be empty where it is indexed (read by hand, confirmed by an
+    # independent search for witnesses that found none; file_name._add_os_path_join was the one genuine case, fixed in the repo)
+    ('jedi.api.helpers', '_get_code', 'lines'):
+        'start_pos/end_pos are positions of a statement that starts at or before the validated cursor line: the slice holds at least that line',
+    ('jedi.api.helpers', '_iter_arguments', 'nodes_before'):
+        'the opening bracket is always among `nodes` and starts before the position (either bracket.start <= leaf.start < position, or '
+        'the error-node path requires bracket.end_pos <= position)',
+    ('jedi.api.helpers', '_get_index_and_key', 'nodes_before'):
+        'as _iter_arguments (and the function has no caller: CallDetails.index/keyword_name_str use _iter_arguments)',
+    ('jedi.api.refactoring.extract', '_remove_unwanted_expression_nodes', 'nodes'):
+        'start_index <= end_index: both default to the whole node and are only moved to children that overlap the range',
+    ('jedi.inference.helpers', 'infer_call_of_leaf', 'trailers'):
+        'atom_expr: [await] atom trailer*: behind `await` stands the atom, so cut >= 2 and the slice holds it; in an error node `await` is '
+        'never directly followed by a trailer',
+    ('jedi.inference.imports', 'follow_error_node_imports_if_possible', 'nodes'):
+        'a `;` only moves start_index while it starts before the name, so the child that contains the name stays in the slice',
+    ('jedi.inference.names', 'AbstractTreeName.goto', 'to_infer'):
+        'the node is a trailer (C01.j): a trailer is never the first child of its parent (atom_expr: atom trailer+; error nodes keep the atom)',
+    ('jedi.inference.gradual.conversion', '_stub_to_python_value_set', 'qualified_names'):
+        'only reached for bound methods, whose qualified names end with the method\'s own name (at least one entry)',
+    ('jedi.inference.gradual.conversion', 'to_stub', 'qualified_names'):
+        'only reached for bound methods, whose qualified names end with the method\'s own name (at least one entry)',
+}
+
+
+def rule_m(repo, chk):
+    chk.clause('C01.m', 'no constant index into a possibly empty list: a local bound to a slice (x[a:b]) or to a filtering comprehension and then '
+                        'indexed with a constant ([0], [-1], [-2]) is indexed only under a truth/len test of that local, package-wide (or the '
+                        'function/variable is triaged with the reason the list cannot be empty)')
+    n = 0
+    for m in sorted(repo.modules.values(), key=lambda m: m.name):
+        for q, f in sorted(m.defs.items()):
+            if not isinstance(f, FUNC_TYPES):
+                continue
+            maybe_empty = {}
+            for a in stmts_in(f, ast.Assign):
+                v = a.value
+                if (isinstance(v, ast.Subscript) and isinstance(v.slice, ast.Slice)) or (isinstance(v, ast.ListComp) and any(g.ifs for g in v.generators)):
+                    for t in a.targets:
+                        if isinstance(t, ast.Name):
+                            maybe_empty[t.id] = a
+            if not maybe_empty:
+                continue
+            done = set()
+            for x in own_nodes(f):
+                if not (isinstance(x, ast.Subscript) and isinstance(x.ctx, ast.Load) and isinstance(x.value, ast.Name) and x.value.id in maybe_empty):
+                    continue
+                idx = x.slice
+                if not (isinstance(idx, ast.Constant) or (isinstance(idx, ast.UnaryOp) and isinstance(idx.operand, ast.Constant))):
+                    continue
+                name = x.value.id
+                n += 1
+
+                def acc(e, pol, name=name):
+                    if isinstance(e, ast.Name) and e.id == name:
+                        return pol
+                    if isinstance(e, ast.Compare) and ('len(%s)' % name) in norm(e):
+                        return True
+                    return False
+                w = gate(f, x, acc)
+                if w is None:
+                    chk.ob('C01.m', True, x, '`%s` is indexed under a truth/len test of `%s`' % (short(x), name))
+                    continue
+                tk = (m.name, q, name)
+                if tk in done:
+                    continue
+                done.add(tk)
+                if tk in TRIAGED_EMPTY:
+                    chk.ob('C01.m', True, x, '`%s` in %s: triaged (%s)' % (short(x), q, TRIAGED_EMPTY[tk]))
+                    continue
+                chk.ob('C01.m', False, x, '`%s` in %s indexes a list that was made by `%s` and may be empty' % (short(x), q, short(maybe_empty[name].value, 50)),
+                       'no truth/len test of `%s` on the path: %s' % (name, w), key='empty-index|%s:%s|%s' % tk)
+    chk.floor('C01.m', n, 15, '(constant indices into sliced/filtered locals)')
+
+
+def _is_bracket_content(e):
+    """an expression that denotes what stands between the brackets of a call: <arglist>.children[k], <trailer>.children[1], or a
+    slice/element of a variable named like an argument list"""
+    if isinstance(e, ast.Subscript):
+        v = e.value
+        if isinstance(v, ast.Attribute) and v.attr == 'children':
+            base = norm(v.value).lower()
+            if 'arglist' in base:
+                return True
+            if 'trailer' in base and isinstance(e.slice, ast.Constant) and e.slice.value == 1:
+                return True
+        if isinstance(v, ast.Name) and 'arglist' in v.id.lower():
+            return True
+    if isinstance(e, ast.Name) and 'arglist_nodes' in e.id.lower():
+        return True
+    return False
+
+
+def _tainted_vars(f, seeds):
+    """locals of f that hold bracket content: seeds (names), plus assignment/iteration closure"""
+    t = set(seeds)
+    changed = True
+    while changed:
+        changed = False
+        for n in own_nodes(f):
+            tgt, src = None, None
+            if isinstance(n, ast.Assign) and len(n.targets) == 1 and isinstance(n.targets[0], ast.Name):
+                tgt, src = n.targets[0].id, n.value
+            elif isinstance(n, (ast.For, ast.comprehension)) and isinstance(n.target, ast.Name):
+                tgt, src = n.target.id, n.iter
+            if tgt is None or tgt in t:
+                continue
+            root = src
+            while isinstance(root, ast.Subscript) and not _is_bracket_content(root):
+                root = root.value
+            if _is_bracket_content(root) or (isinstance(root, ast.Name) and root.id in t) or \
+                    (isinstance(src, ast.Subscript) and isinstance(src.value, ast.Attribute) and src.value.attr == 'children'
+                     and isinstance(src.value.value, ast.Name) and src.value.value.id in t):
+                t.add(tgt)
+                changed = True
+    return t
+
+
+def rule_n(repo, chk):
+    chk.clause('C01.n', 'what stands between the brackets of a call is not always an expression: an element of an arglist / the content of a '
+                        'trailer can be an `argument` node (*args, key=value, a generator) or a whole arglist.  Wherever such a node reaches '
+                        'infer_node/infer_call_of_leaf (directly, through locals, loops, or one call into a package function), a test of its '
+                        '.type that excludes `argument`/`arglist` dominates the call')
+    sinks = {'infer_node', 'infer_call_of_leaf'}
+    n = 0
+    # one level of calls: package functions that receive bracket content as an argument
+    param_seeds = {}
+    for _round in range(3):         # calls into package functions, up to three levels
+        grew = False
+        for m in repo.modules.values():
+            for q, f in m.defs.items():
+                if not isinstance(f, FUNC_TYPES):
+                    continue
+                tv = _tainted_vars(f, param_seeds.get(id(f), (None, set()))[1])
+                for c in own_nodes(f):
+                    if isinstance(c, ast.Call) and call_name(c) not in sinks:
+                        d = None
+                        if isinstance(c.func, ast.Name):
+                            # a function nested in f or in an enclosing function, else a module-level one
+                            parts = q.split('.')
+                            for k in range(len(parts), -1, -1):
+                                cand = m.defs.get('.'.join(parts[:k] + [c.func.id]))
+                                if isinstance(cand, FUNC_TYPES):
+                                    d = cand
+                                    break
+                        if d is None:
+                            r = repo.resolve(c.func)
+                            d = repo.def_by_dotted(r) if r else None
+                        if d is None or not isinstance(d, FUNC_TYPES):
+                            continue
+                        ps = params(d)
+                        for i_, a in enumerate(c.args):
+                            root = a
+                            while isinstance(root, ast.Subscript) and not _is_bracket_content(root):
+                                root = root.value
+                            if (_is_bracket_content(root) or (isinstance(root, ast.Name) and root.id in tv)) and i_ < len(ps):
+                                cur = param_seeds.setdefault(id(d), (d, set()))[1]
+                                if ps[i_] not in cur:
+                                    cur.add(ps[i_])
+                                    grew = True
+        if not grew:
+            break
+    for m in sorted(repo.modules.values(), key=lambda m: m.name):
+        for q, f in sorted(m.defs.items()):
+            if not isinstance(f, FUNC_TYPES):
+                continue
+            seeds = param_seeds.get(id(f), (None, set()))[1]
+            tv = _tainted_vars(f, seeds)
+            for c in own_nodes(f):
+                if not (isinstance(c, ast.Call) and call_name(c) in sinks and c.args):
+                    continue
+                a = c.args[-1] if call_name(c) == 'infer_node' else (c.args[1] if len(c.args) > 1 else c.args[-1])
+                tainted = _is_bracket_content(a) or (isinstance(a, ast.Name) and a.id in tv)
+                if not tainted:
+                    continue
+                if isinstance(a, ast.Subscript) and isinstance(a.value, ast.Attribute):
+                    # `<x>.children[1]` of a node known to be a decorator is the decorator expression, not bracket content
+                    holder = norm(a.value.value)
+                    facts = _type_facts(f, c, {holder})
+                    if any("'decorator'" in t_ for t_ in facts):
+                        continue
+                n += 1
+                subj = norm(a)
+
+                def acc(e, pol, subj=subj):
+                    if not (isinstance(e, ast.Compare) and len(e.ops) == 1 and isinstance(e.left, ast.Attribute) and e.left.attr == 'type'
+                            and norm(e.left.value) == subj):
+                        return False
+                    cmp_ = e.comparators[0]
+                    vals = {v.value for v in cmp_.elts if isinstance(v, ast.Constant)} if isinstance(cmp_, (ast.Tuple, ast.List, ast.Set)) else \
+                        ({cmp_.value} if isinstance(cmp_, ast.Constant) else set())
+                    op = e.ops[0]
+                    if isinstance(op, (ast.Eq, ast.In)):
+                        return (not pol and 'argument' in vals) or (pol and not (vals & {'argument', 'arglist'}))
+                    if isinstance(op, (ast.NotEq, ast.NotIn)):
+                        return (pol and 'argument' in vals) or (not pol and not (vals & {'argument', 'arglist'}))
+                    return False
+                w = gate(f, c, acc)
+                chk.ob('C01.n', w is None, c, '`%s` in %s: the node taken from between call brackets is tested not to be an `argument` before it is inferred' % (short(c, 50), q),
+                       'an argument node (*args, key=value, generator) reaches the inference entry point, which asserts on its operator: %s' % w if w else '',
+                       key='bracket-content|%s:%s|%s' % (m.name, q, norm(c)))
+    chk.floor('C01.n', n, 3, '(bracket content handed to the inference entry points)')
+
+
 RULES = [('C01.a', rule_a), ('C01.b', rule_b), ('C01.c', rule_c), ('C01.d', rule_d), ('C01.e', rule_e), ('C01.f', rule_f),
-         ('C01.g', rule_g), ('C01.h', rule_h), ('C01.i', rule_i), ('C01.j', rule_j), ('C01.k', rule_k), ('C01.l', rule_l)]
+         ('C01.g', rule_g), ('C01.h', rule_h), ('C01.i', rule_i), ('C01.j', rule_j), ('C01.k', rule_k), ('C01.l', rule_l), ('C01.m', rule_m), ('C01.n', rule_n)]
